@@ -34,6 +34,8 @@ pub struct Config {
     pub any_to_loop: BTreeSet<u64>,
     /// method renames `name` -> `new_name` (receiver-independent, checked by rustc in Verus)
     pub method_rename: BTreeMap<String, String>,
+    /// method calls turned into free function calls: `x.name(args)` -> `new_name(x, args)`
+    pub method_to_fn: BTreeMap<String, String>,
     /// macros to drop entirely (statement position), e.g. "log::info"
     pub drop_macros: Vec<String>,
     /// idents of let-bindings / params that shadow and must be alpha-renamed (R15): name -> new name, applied from the n-th `let` on
@@ -80,6 +82,11 @@ impl Config {
             if let Some(m) = src["method_rename"].as_object() {
                 for (k, v) in m {
                     c.method_rename.insert(k.clone(), v.as_str().unwrap_or("").to_string());
+                }
+            }
+            if let Some(m) = src["method_to_fn"].as_object() {
+                for (k, v) in m {
+                    c.method_to_fn.insert(k.clone(), v.as_str().unwrap_or("").to_string());
                 }
             }
             c.add_derives.extend(strs(&src["add_derives"]));
@@ -473,6 +480,49 @@ impl<'a> VisitMut for StringPass<'a> {
     }
 
     fn visit_expr_mut(&mut self, e: &mut syn::Expr) {
+        // R5b: `match s { "a" | "b" => X, "c" => Y, other => Z }` -> if / else-if chain on `==`
+        if let syn::Expr::Match(m) = e {
+            fn lits(p: &syn::Pat, out: &mut Vec<syn::Lit>) -> bool {
+                match p {
+                    syn::Pat::Lit(l) => match &l.lit { syn::Lit::Str(_) => { out.push(l.lit.clone()); true } _ => false },
+                    syn::Pat::Or(o) => o.cases.iter().all(|c| lits(c, out)),
+                    _ => false,
+                }
+            }
+            let any_str = m.arms.iter().any(|a| { let mut v = vec![]; lits(&a.pat, &mut v) && !v.is_empty() });
+            if any_str {
+                let scrut = (*m.expr).clone();
+                let mut chain: Option<syn::Expr> = None;
+                let mut ok = true;
+                // build from the last arm backwards
+                for arm in m.arms.iter().rev() {
+                    if arm.guard.is_some() { ok = false; break; }
+                    let body = &arm.body;
+                    let mut v = vec![];
+                    if lits(&arm.pat, &mut v) && !v.is_empty() {
+                        let conds: Vec<syn::Expr> = v.iter().map(|l| syn::parse_quote!(*__m == *vx_s(#l))).collect();
+                        let cond: syn::Expr = syn::parse_quote!(#(#conds)||*);
+                        let els: syn::Expr = match chain.take() { Some(c) => c, None => { ok = false; break; } };
+                        chain = Some(syn::parse_quote!(if #cond { #body } else { #els }));
+                    } else {
+                        match &arm.pat {
+                            syn::Pat::Wild(_) => { chain = Some(syn::parse_quote!({ #body })); }
+                            syn::Pat::Ident(pi) if pi.subpat.is_none() => { let id = &pi.ident; chain = Some(syn::parse_quote!({ let #id = __m; #body })); }
+                            _ => { ok = false; break; }
+                        }
+                    }
+                }
+                if ok {
+                    if let Some(c) = chain {
+                        *e = syn::parse_quote!({ let __m = #scrut; #c });
+                        bump(self.counts, "R5b.match_str_to_if");
+                        // literals inside the generated vx_s(..) stay; visit bodies
+                        visit_mut::visit_expr_mut(self, e);
+                        return;
+                    }
+                }
+            }
+        }
         // method calls named `expect` keep their literal message
         if let syn::Expr::MethodCall(mc) = e {
             if mc.method == "expect" {
@@ -517,6 +567,19 @@ struct MethodRenamePass<'a> {
 }
 
 impl<'a> VisitMut for MethodRenamePass<'a> {
+    fn visit_expr_mut(&mut self, e: &mut syn::Expr) {
+        visit_mut::visit_expr_mut(self, e);
+        if let syn::Expr::MethodCall(mc) = e {
+            if let Some(n) = self.cfg.method_to_fn.get(&mc.method.to_string()) {
+                let f = syn::Ident::new(n, Span::call_site());
+                let recv = &mc.receiver;
+                let args = &mc.args;
+                let new: syn::Expr = if args.is_empty() { syn::parse_quote!(#f(#recv)) } else { syn::parse_quote!(#f(#recv, #args)) };
+                *e = new;
+                bump(self.counts, "R7.method_to_fn");
+            }
+        }
+    }
     fn visit_expr_method_call_mut(&mut self, mc: &mut syn::ExprMethodCall) {
         if let Some(n) = self.cfg.method_rename.get(&mc.method.to_string()) {
             mc.method = syn::Ident::new(n, Span::call_site());
@@ -1085,7 +1148,7 @@ pub fn apply_to_fn(
         p.visit_item_fn_mut(f);
     }
     // method renames
-    if !cfg.method_rename.is_empty() {
+    if !cfg.method_rename.is_empty() || !cfg.method_to_fn.is_empty() {
         let mut p = MethodRenamePass { cfg, counts };
         p.visit_item_fn_mut(f);
     }
